@@ -586,7 +586,7 @@ Proof.
   destruct (step w o) as [[x|?|?|] w1] eqn:E; try discriminate.
   eapply IH; [|exact H]. eapply step_winv; eassumption.
 Qed.
-Lemma winv0 : winv world0.
+Lemma winv0 ct : winv (world0 ct).
 Proof.
   unfold winv, world0, st0. cbn [wst wstrs]. split; cbn [snext sevs owned flat_map].
   - lia. - intros b H. unfold cnt in H. simpl in H. lia. - intros b. unfold cnt. simpl. lia.
@@ -630,10 +630,10 @@ Qed.
 
 (* C16 for basic_string: any script (any operands, aliasing included) that runs without UB / assertion stop,
    followed by the destruction of every live string, leaves a well-formed and closed allocation log *)
-Lemma str_log_wf_closed (ops : list op) (w : world) (evs : list ev) (s' : st) :
-  run_ops world0 ops = Some w -> finish w = (Ok evs, s') -> wf_closed (sevs s') = true.
+Lemma str_log_wf_closed (ct : cty) (ops : list op) (w : world) (evs : list ev) (s' : st) :
+  run_ops (world0 ct) ops = Some w -> finish w = (Ok evs, s') -> wf_closed (sevs s') = true.
 Proof.
-  intros Hrun Hfin. pose proof (run_ops_winv ops world0 w winv0 Hrun) as [A B C D].
+  intros Hrun Hfin. pose proof (run_ops_winv ops (world0 ct) w (winv0 ct) Hrun) as [A B C D].
   unfold finish in Hfin. pose proof (p_destroy_all (wstrs w) (wst w)) as P. unfold pM in P.
   destruct (destroy_all (wstrs w) (wst w)) as [[u|?|?|] s2]; try discriminate.
   injection Hfin as _ <-. destruct P as [_ E]. rewrite E.
@@ -642,9 +642,9 @@ Qed.
 
 (* the destructor pass itself cannot fail on a state reached by a script: every owned buffer is allocated.
    (stated on the log: each EFree finds its block) -- and the log of every PREFIX is well-formed *)
-Lemma str_log_wf_prefix (ops : list op) (w : world) :
-  run_ops world0 ops = Some w -> wf_log (sevs (wst w)) = true.
+Lemma str_log_wf_prefix (ct : cty) (ops : list op) (w : world) :
+  run_ops (world0 ct) ops = Some w -> wf_log (sevs (wst w)) = true.
 Proof.
-  intros Hrun. pose proof (run_ops_winv ops world0 w winv0 Hrun) as [A B C (ls & Hr & _)].
+  intros Hrun. pose proof (run_ops_winv ops (world0 ct) w (winv0 ct) Hrun) as [A B C (ls & Hr & _)].
   unfold wf_log. rewrite Hr. reflexivity.
 Qed.
